@@ -608,6 +608,9 @@ class Gen:
         r = self.r
         kind = 'func' if self.chance(0.5) else 'proc'
         name = ('f%d' if kind == 'func' else 'p%d') % idx
+        if self.chance(0.08):
+            # a long name (symbol table strings, trace label column)
+            name = (name + '_a_procedure_with_a_rather_long_name_indeed_it_goes_on_and_on')[:r.choice([20, 27, 29, 30, 31, 32, 40, 64])]
         p = Proc(kind, name, [])
         used = set()
         avail = [n for n in NAMES]
